@@ -69,6 +69,19 @@ class FaultOracle:
                 bad("C14.none_tid", f"fault callback {f['fault']}({f['cond']}) carries no transaction id", what="callback")
             elif m["tid"] is not None and list(f["tid"]) != list(m["tid"]):
                 bad("C14.wrong_tid", f"fault callback carries transaction id {f['tid']}, live transaction is {m['tid']}")
+            # "...invoked with the transaction id, the condition and the current progress": the progress the handler held when the call
+            # began, or a value the event of this very call sets before the fault is declared (end of a File Data PDU, size of an EOF)
+            if "pre_progress" in out and out["pre_progress"] is not None:
+                cands = {out["pre_progress"]}
+                pd = out.get("pdu") or {}
+                if pd.get("T") == "FD":
+                    e = pd["off"] + len(pd["data"]) // 2
+                    cands |= {e, max(e, out["pre_progress"])}
+                elif pd.get("T") == "EOF":
+                    cands.add(pd.get("size"))
+                if f["progress"] not in cands:
+                    bad("C14.progress", f"fault callback {f['fault']}({f['cond']}) reports progress {f['progress']}, the handler's progress is "
+                        f"{sorted(x for x in cands if x is not None)}", cond=f["cond"], kind=f["fault"])
             want = table.get(f["cond"])
             in_cancel_exchange = pre["cancelled"] is not None
             # CFDP 4.11.2.3.2: a fault that would cancel an already cancelled transaction abandons it instead (logged through the
